@@ -6,16 +6,22 @@ Core Lean only.  One decorated call (`marginal_ln_likelihood_helper`, `rejection
 `JokerSamples` *object* go through
 
     f = NamedTemporaryFile(delete=False)            -- mkTemp f
-    try:     prior_samples.write(f.name)            -- writeTemp f
-             func(..., prior_samples_file=f.name)   -- inner steps: opens (mode is part of the label),
-                                                    --   read_batch, pool.map, helper batch calls, unpack …
-    finally: os.unlink(f.name)                      -- unlink f
+    try:     prior_samples.write(f.name, overwrite=True)   -- writeTemp f, then whatever the writer does to f
+             func(..., prior_samples_file=f.name)   -- opens (mode is part of the label), read_batch, pool.map,
+                                                    --   helper batch calls, unpack …
+    finally: remove f if it (still) exists          -- unlink f
 
-while a *file name* goes straight to `func` (inner steps only, on the user's file).  The inner steps are
-left free (any list of steps that does not create / delete temp files and opens user files read-only): the
-machine is nondeterministic in them, the harness checks that the observed trace is one of its runs, and the
-theorems are for all runs.  A fault is a parameter: none, a failure of the temp-file creation itself, or a
-failure of the `k`-th step of the `try` block (that step is attempted, nothing after it runs).
+while a *file name* goes straight to `func` (inner steps only, on the user's file).
+
+Deviation from the first sketch (design_probes/Skel_CacheRng.lean), forced by the real code: the HDF5 writer
+called with `overwrite=True` *removes* the empty temp file and creates it again (`os.remove` + `h5py.File(.., "w")`
+in `samples_helpers.write_table_hdf5`), so the `try` block may delete and re-create **its own** cache file `f`;
+a failure between the two leaves nothing to unlink, hence the clean-up is "remove `f` if it exists".  The
+steps of the `try` block are therefore left free up to: no temp file other than `f` is created or deleted, and
+user paths are opened read-only (`okFor f`).  The machine is nondeterministic in those steps, the harness checks
+that the observed trace is one of its runs, and the theorems are for all runs.  A fault is a parameter: none, a
+failure of the temp-file creation itself, or a failure of the `k`-th step of the `try` block (that step is
+attempted, nothing after it runs).
 -/
 namespace Cache
 
@@ -24,17 +30,17 @@ deriving DecidableEq, Repr
 
 /-- observable steps -/
 inductive Step
-  | mkTemp (f : Nat)                 -- NamedTemporaryFile(delete=False) returned file `f`
-  | writeTemp (f : Nat)              -- prior_samples.write(f.name, overwrite=True)
-  | openUser (path : Nat) (m : Mode) -- tb.open_file / h5py.File / write on a user-supplied path
-  | openTemp (f : Nat) (m : Mode)    -- the same on the cache file
+  | mkTemp (f : Nat)                 -- temp file `f` comes into existence (NamedTemporaryFile / re-creation by the writer)
+  | writeTemp (f : Nat)              -- prior_samples.write(f.name, overwrite=True) is entered
+  | openUser (path : Nat) (m : Mode) -- tb.open_file / h5py.File / write / unlink on a user-supplied path
+  | openTemp (f : Nat) (m : Mode)    -- open of the cache file
   | body (label : String)            -- read_batch, pool.map, batch_marginal_ln_likelihood, unpack …
-  | unlink (f : Nat)                 -- os.unlink(f.name)
+  | unlink (f : Nat)                 -- temp file `f` is removed
 deriving DecidableEq, Repr
 
 structure St where
   tmp : List Nat := []          -- temp files that exist
-  userWritten : Bool := false   -- was any user path opened writable / written
+  userWritten : Bool := false   -- was any user path opened writable / written / removed
 deriving DecidableEq, Repr
 
 def apply (s : St) : Step → St
@@ -59,47 +65,80 @@ def cut : Fault → List Step → List Step
   | .create, _ => []
   | .step k, l => l.take (k + 1)
 
-/-- trace of a decorated call on an in-memory library; the `finally` clause always runs -/
-def objectTrace (f : Nat) (inner : List Step) : Fault → List Step
+/-- the `finally` clause: remove the cache file if it exists -/
+def cleanup (s : St) (f : Nat) : List Step := if s.tmp.contains f then [Step.unlink f] else []
+
+/-- everything up to the `finally` clause -/
+def objectPre (f : Nat) (blk : List Step) (fl : Fault) : List Step :=
+  Step.mkTemp f :: cut fl (Step.writeTemp f :: blk)
+
+/-- trace of a decorated call on an in-memory library (`blk` = what the try block does after entering the
+write); the `finally` clause always runs -/
+def objectTrace (s0 : St) (f : Nat) (blk : List Step) : Fault → List Step
   | .create => []
-  | fl => Step.mkTemp f :: cut fl (Step.writeTemp f :: inner) ++ [Step.unlink f]
+  | fl => objectPre f blk fl ++ cleanup ((objectPre f blk fl).foldl apply s0) f
 
 /-- trace of a decorated call on a file name -/
 def fileTrace (inner : List Step) (fl : Fault) : List Step := cut fl inner
 
 /-- (final state, did an exception reach the caller?) -/
-def objectCall (s0 : St) (f : Nat) (inner : List Step) (fl : Fault) : St × Bool :=
-  ((objectTrace f inner fl).foldl apply s0, fl.raised)
+def objectCall (s0 : St) (f : Nat) (blk : List Step) (fl : Fault) : St × Bool :=
+  ((objectTrace s0 f blk fl).foldl apply s0, fl.raised)
 
 def fileCall (s0 : St) (inner : List Step) (fl : Fault) : St × Bool :=
   ((fileTrace inner fl).foldl apply s0, fl.raised)
 
-/-- steps allowed inside `func`: never create or delete temp files, never open a user path writable -/
+/-- steps allowed in the try block of an object call with cache file `f`: no temp file other than `f` is
+created or deleted, no user path is opened writable -/
+def okFor (f : Nat) : Step → Bool
+  | .mkTemp g => g == f
+  | .unlink g => g == f
+  | .openUser _ .rw => false
+  | _ => true
+
+/-- steps allowed when the caller passed a file name: no temp files at all, user paths read-only -/
 def stepOK : Step → Bool
   | .mkTemp _ => false
   | .unlink _ => false
   | .openUser _ .rw => false
   | _ => true
 
+def BlockOK (f : Nat) (blk : List Step) : Prop := ∀ st ∈ blk, okFor f st = true
 def InnerOK (inner : List Step) : Prop := ∀ st ∈ inner, stepOK st = true
 
 /-! ### recognising an observed trace as a run (used by the driver; soundness proved in the lemmas) -/
 
-/-- decompose an observed trace of an object-input call into `(f, inner, fault)`;
+def faultOf (raisedFlag : Bool) (blk : List Step) : Fault :=
+  if raisedFlag then .step blk.length else .none
+
+/-- (A) the trace ends with the clean-up removing a still existing `f` -/
+def candA (s0 : St) (f : Nat) (rest : List Step) (raisedFlag : Bool) : Option (Nat × List Step × Fault) :=
+  match rest.getLast? with
+  | some (.unlink g) =>
+    if g = f ∧ rest.dropLast.all (okFor f) = true ∧
+        ((Step.mkTemp f :: Step.writeTemp f :: rest.dropLast).foldl apply s0).tmp.contains f = true then
+      some (f, rest.dropLast, faultOf raisedFlag rest.dropLast)
+    else none
+  | _ => none
+
+/-- (B) nothing left to clean up -/
+def candB (s0 : St) (f : Nat) (rest : List Step) (raisedFlag : Bool) : Option (Nat × List Step × Fault) :=
+  if rest.all (okFor f) = true ∧
+      ((Step.mkTemp f :: Step.writeTemp f :: rest).foldl apply s0).tmp.contains f = false then
+    some (f, rest, faultOf raisedFlag rest)
+  else none
+
+/-- decompose an observed trace of an object-input call into `(f, blk, fault)`;
 `raisedFlag` = an exception reached the caller -/
-def matchObject (tr : List Step) (raisedFlag : Bool) : Option (Nat × List Step × Fault) :=
+def matchObject (s0 : St) (tr : List Step) (raisedFlag : Bool) : Option (Nat × List Step × Fault) :=
   match tr with
   | [] => if raisedFlag then some (0, [], .create) else none
-  | .mkTemp f :: rest =>
-    match rest.getLast? with
-    | some (.unlink f') =>
-      match rest.dropLast with
-      | .writeTemp f'' :: inner =>
-        if f' = f ∧ f'' = f ∧ inner.all stepOK then
-          some (f, inner, if raisedFlag then .step inner.length else .none)
-        else none
-      | _ => none
-    | _ => none
+  | .mkTemp f :: .writeTemp f' :: rest =>
+    if f' = f then
+      match candA s0 f rest raisedFlag with
+      | some r => some r
+      | none => candB s0 f rest raisedFlag
+    else none
   | _ => none
 
 def matchFile (tr : List Step) (raisedFlag : Bool) : Option (List Step × Fault) :=
